@@ -77,6 +77,7 @@ impl Ready<Table> for TableBuilder<WithSchema> {
     type Error = Error;
 
     fn try_build(self) -> Result<Table> {
+        crate::verif_point("builder::try_build");
         let name = self.name.unwrap_or_else(|| namer::new_name("table"));
         let path = self.path.unwrap_or_else(|| name.clone().into());
         let size = self
@@ -402,6 +403,7 @@ impl Ready<Map> for MapBuilder<WithInput> {
     type Error = Error;
 
     fn try_build(self) -> Result<Map> {
+        crate::verif_point("builder::try_build");
         // Build the name
         let name = self.build_name();
         if let Split::Map(map) = self.split {
@@ -630,6 +632,7 @@ impl Ready<Reduce> for ReduceBuilder<WithInput> {
     type Error = Error;
 
     fn try_build(self) -> Result<Reduce> {
+        crate::verif_point("builder::try_build");
         // Build the name
         let name = self.build_name();
         if let Split::Reduce(reduce) = self.split {
@@ -822,6 +825,7 @@ impl Ready<Join> for JoinBuilder<WithInput, WithInput> {
     type Error = Error;
 
     fn try_build(self) -> Result<Join> {
+        crate::verif_point("builder::try_build");
         let name = self
             .name
             .clone()
@@ -987,6 +991,7 @@ impl Ready<Set> for SetBuilder<WithInput, WithInput> {
     type Error = Error;
 
     fn try_build(self) -> Result<Set> {
+        crate::verif_point("builder::try_build");
         let name = self
             .name
             .clone()
@@ -1054,6 +1059,7 @@ impl Ready<Values> for ValuesBuilder {
     type Error = Error;
 
     fn try_build(self) -> Result<Values> {
+        crate::verif_point("builder::try_build");
         let name = self.name.unwrap_or_else(|| namer::new_name("values"));
         let values = self.values;
         Ok(Values::new(name, values))
